@@ -34,6 +34,9 @@ type c20Case struct {
 	Withdraw bool          `json:"withdraw,omitempty"` // the first release of the catalogue disappears from the listing after the first list request
 	Stale    string        `json:"stale,omitempty"`    // what an earlier, interrupted run left next to the executable: new-file | old-file | new-dir
 	Local    string        `json:"local,omitempty"`    // a local fault while installing: rename | write-new | open-new (every such system call fails)
+	// Retry: the command is run twice in the same home directory; the fault (if any) hits the first run only. What
+	// the first run left behind (a cache, a kept download) is no reason to trust it in the second one.
+	Retry bool `json:"retry,omitempty"`
 }
 
 const c20ChecksumFile = "crs-toolchain-checksums.txt"
@@ -278,6 +281,16 @@ func c20Check(env *core.Env, cc core.Case) core.Verdict {
 	case "open-new":
 		cmd.Strace, cmd.InjectCall, cmd.InjectErr, cmd.InjectPath = injLog, "openat", "EACCES", filepath.Join(filepath.Dir(exe), ".crs-toolchain.new")
 	}
+	if c.Retry {
+		first := sut.Run(cmd)
+		if first.Class() == sut.ClassTimeout {
+			return core.Incon("watchdog in the first of two runs")
+		}
+		if now, err := os.ReadFile(exe); err != nil || string(now) != string(orig) {
+			// the first run installed something (the fault did not hit a request it needs): the single-run cases judge that
+			return core.Verdict{Status: core.Skipped, Msg: "the first of the two runs completed an installation"}
+		}
+	}
 	r := sut.Run(cmd)
 	injected := 0
 	if c.Local != "" {
@@ -319,6 +332,9 @@ func c20Check(env *core.Env, cc core.Case) core.Verdict {
 			if q.Seq == c.Fault.Index {
 				reached = true
 			}
+		}
+		if c.Retry {
+			reached = false // the fault belonged to the first run
 		}
 		if reached {
 			if c.Fault.Kind == "reset" && outcome == "install" {
@@ -496,6 +512,14 @@ func c20Cases(env *core.Env, rng *rand.Rand) []core.Case {
 				for _, run := range runnings[:2] {
 					cs = append(cs, &c20Case{Running: run, Releases: s.rels, Name: s.name + "+fault", Fault: &ghfake.Fault{Index: idx, Kind: kind}})
 				}
+			}
+		}
+	}
+	// a second run after one whose requests partly failed, in the same home directory
+	for _, s := range byName("checksum-mismatch", "checksum-missing", "archive-corrupt", "newer-verified") {
+		for idx := 2; idx <= 4; idx++ {
+			for _, kind := range []string{"500", "truncate", "404"} {
+				cs = append(cs, &c20Case{Running: runnings[0], Releases: s.rels, Name: s.name + "+retry-after-fault", Fault: &ghfake.Fault{Index: idx, Kind: kind}, Retry: true})
 			}
 		}
 	}
